@@ -63,7 +63,9 @@ type Result struct {
 	Err       string   `json:"err,omitempty"`
 	EndedBy   string   `json:"ended"` // eof | error | stop | cancel | openerr
 	Detail    string   `json:"detail,omitempty"`
-	Site      string   `json:"site,omitempty"` // function in the repository where it panicked / blocked
+	Site      string   `json:"site,omitempty"`      // function in the repository where it panicked / blocked
+	Confirmed bool     `json:"confirmed,omitempty"` // hang / leak reproduced by an isolated re-run
+	SlowOK    bool     `json:"slow_ok,omitempty"`   // first attempt timed out, the isolated re-run terminated
 	Alloc     uint64   `json:"alloc"`
 	Nanos     int64    `json:"ns"`
 	Stack     string   `json:"stack,omitempty"`
